@@ -94,6 +94,14 @@ func (s tStmt) coq() string {
 		return "(SOutE " + coq.StrList(s.Strs) + ")"
 	case "bothE":
 		return "(SBothE " + coq.StrList(s.Strs) + ")"
+	case "inNull":
+		return "(SInNull " + coq.StrList(s.Strs) + ")"
+	case "outNull":
+		return "(SOutNull " + coq.StrList(s.Strs) + ")"
+	case "inENull":
+		return "(SInENull " + coq.StrList(s.Strs) + ")"
+	case "outENull":
+		return "(SOutENull " + coq.StrList(s.Strs) + ")"
 	case "has":
 		return "(SHas " + s.Has.coq() + ")"
 	case "hasLabel":
@@ -517,15 +525,15 @@ func randProgram(rng *rand.Rand, maxLen int, opts progOpts) []tStmt {
 		c := rng.Intn(30)
 		switch {
 		case c < 6:
-			ops := []string{"in", "out", "both"}
-			p = append(p, tStmt{Op: ops[rng.Intn(3)], Strs: labels()})
+			ops := []string{"in", "out", "both", "in", "out", "both", "inNull", "outNull"}
+			p = append(p, tStmt{Op: ops[rng.Intn(len(ops))], Strs: labels()})
 			ty = "vertex"
 		case c < 10:
 			if ty != "vertex" && !illTyped {
 				continue
 			}
-			ops := []string{"inE", "outE", "bothE"}
-			p = append(p, tStmt{Op: ops[rng.Intn(3)], Strs: labels()})
+			ops := []string{"inE", "outE", "bothE", "inE", "outE", "bothE", "inENull", "outENull"}
+			p = append(p, tStmt{Op: ops[rng.Intn(len(ops))], Strs: labels()})
 			ty = "edge"
 		case c < 14:
 			h := randHas(rng, marks, 2)
@@ -641,9 +649,9 @@ func genType(p []tStmt) string {
 			ty = "vertex"
 		case "E":
 			ty = "edge"
-		case "in", "out", "both":
+		case "in", "out", "both", "inNull", "outNull":
 			ty = "vertex"
-		case "inE", "outE", "bothE":
+		case "inE", "outE", "bothE", "inENull", "outENull":
 			ty = "edge"
 		case "as":
 			mt[s.Str] = ty
